@@ -2,16 +2,25 @@
 
 Proof:  coq/Properties/C08.v — theorems about Model/ParseM.v (the parser of asimap/parse.py as a Gallina
         function, scanners in Model/Lex.v) against Spec/Grammar.v (RFC 3501 + the advertised extensions as
-        a printer with free choices).
-Tie:    X — (i) grammar-directed sentences (all commands, UID forms, nested search keys, sections and
+        a printer with free choices): completeness for every command and every choice, totality (no crash,
+        no exhausted fuel), soundness (what is accepted is well-formed and is parsed again from its
+        canonical sentence), witnesses of the two known findings.
+Tie:    pins — the regular expression source texts, uid_commands, the set of _p_srchkey_* methods and of
+        IMAPCommand members of asimap/parse.py are compared with the texts the model was written against;
+        str.lower() on latin-1, os.path.normpath and int()'s digit limit are compared with their models.
+        X — (i) grammar-directed sentences (all commands, UID forms, nested search keys, sections and
         partials, literals and literal+, LIST-EXTENDED, ID) parsed by the REAL IMAPClientCommand; the
         object's attributes are converted to the AST and compared with the generator's AST (Python) and with
         the model's parse of the same bytes (inside Coq, vm_compute); the Python printer is pinned to the
-        Coq `render` on the canonical choices.  (ii) mutations / truncations of such sentences, token soup
-        and raw random bytes: the real outcome {parsed + AST + unread rest, BadCommand, other exception,
-        hang > 1 s} must be the model's; other exception / hang is a violation by itself.  (iii) the real
-        IMAPClientProxy.run on a real asyncio.StreamReader: an unparsable command gets exactly one BAD
-        line and the next command on the same connection is answered.
+        Coq `render` on the canonical choices.  (ii) mutations / truncations of such sentences, sentences
+        that break exactly one well-formedness condition, token soup and raw random bytes: the real outcome
+        {parsed + AST + unread rest, BadCommand, other exception, hang > 1 s} must be the model's; other
+        exception / hang is a violation by itself.  (iii) the real IMAPClientProxy.run on a real
+        asyncio.StreamReader: an unparsable command gets exactly one BAD line and the next command on the
+        same connection is answered.
+Findings: C08-trailing-text, C08-datetime-2digit-year are reported as KNOWN-FINDING when listed in
+        known_findings.json (after their witnesses have been replayed on the implementation), as VIOLATION
+        otherwise.
 """
 from __future__ import annotations
 
@@ -66,7 +75,9 @@ def real_parse(data: bytes):
         finally:
             signal.setitimer(signal.ITIMER_REAL, 0)
         try:
-            return ("parsed", X.obj_to_ast(c, captured[-1] if captured else None), c.input.encode("latin-1"))
+            # attributes outside the AST of Spec/Grammar.v are handed on as a 4th element
+            extras = {"list_reference": getattr(c, "list_reference", None)}
+            return ("parsed", X.obj_to_ast(c, captured[-1] if captured else None), c.input.encode("latin-1"), extras)
         except X.Unconvertible as e:
             return ("unconvertible", str(e))
     except P.BadCommand as e:
@@ -220,7 +231,8 @@ def grammar_directed(ctx, n):
     for i in range(n):
         kind = X.KINDS[i % len(X.KINDS)] if i < 4 * len(X.KINDS) else None
         a = g.ast(kind)
-        s = X.render(a, X.Rand(ctx.rng))
+        chooser = X.Rand(ctx.rng)
+        s = X.render(a, chooser)
         canon = X.render(a, X.Canon())
         dist[a[2][0]] = dist.get(a[2][0], 0) + 1
         seen_forms["literal+"] += b"+}\r\n" in s
@@ -242,6 +254,15 @@ def grammar_directed(ctx, n):
         elif got[1] != a or got[2] not in (b"", b"\r\n"):
             ctx.violation("the parsed command is not what the sentence denotes",
                           {"input": show(s), "expected": repr(a), "observed": repr(got[1]), "unread": show(got[2])})
+        elif a[2][0] == "list" and got[3]["list_reference"] is not None:
+            # list_reference (C17 fix) is not part of the AST: the reference with its trailing delimiter kept
+            ref = a[2][3]
+            txt = chooser.last_ref_text
+            keep = (txt.endswith(b"/") or txt.endswith(b'/"')) and ref not in (b"", b"/")
+            exp = (ref + b"/" if keep else ref).decode("latin-1")
+            if got[3]["list_reference"] != exp:
+                ctx.violation("LIST: list_reference is not the reference with its trailing delimiter",
+                              {"input": show(s), "expected": exp, "observed": got[3]["list_reference"]})
         cases.append((a, s, canon))
         obs.append((s, got))
     bad_rt, bad_render = coq_roundtrip(ctx, "c08g", cases)
